@@ -129,6 +129,32 @@ class FnTranslator:
                 parts.append(a)
             op = " && " if isinstance(e.op, ast.And) else " || "
             return "(" + op.join(parts) + ")", "bool"
+        if isinstance(e, ast.BinOp) and isinstance(e.op, ast.Mod) and isinstance(e.left, ast.Constant) \
+                and isinstance(e.left.value, bytes):
+            # b"...%d...%b..." % (args): only %d (int) and %b (bytes) conversions, one argument each
+            fmt = e.left.value
+            args = list(e.right.elts) if isinstance(e.right, ast.Tuple) else [e.right]
+            pieces, i, lit = [], 0, b""
+            while i < len(fmt):
+                if fmt[i:i + 1] == b"%":
+                    conv = fmt[i + 1:i + 2]
+                    if conv not in (b"d", b"b") or not args:
+                        raise Unsupported(e, "format conversion")
+                    if lit:
+                        pieces.append(coq_bytes(lit))
+                        lit = b""
+                    a, ta = self.expr(args.pop(0), env)
+                    self.want(e, ta, "Z" if conv == b"d" else "bytes")
+                    pieces.append(f"(bytes_dec {a})" if conv == b"d" else a)
+                    i += 2
+                else:
+                    lit += fmt[i:i + 1]
+                    i += 1
+            if lit:
+                pieces.append(coq_bytes(lit))
+            if args:
+                raise Unsupported(e, "too many format arguments")
+            return "(" + " ++ ".join(pieces or ["[]"]) + ")", "bytes"
         if isinstance(e, ast.BinOp):
             a, ta = self.expr(e.left, env)
             b, tb = self.expr(e.right, env)
@@ -154,6 +180,10 @@ class FnTranslator:
                 d, td = self.expr(r, env)
                 if isinstance(td, tuple) and td[0] == "dict" and tk == "str":
                     s = f"(dict_mem {d} {k})"
+                    return (s if isinstance(op, ast.In) else f"(negb {s})"), "bool"
+                # b"x" in value: a one-byte needle in a byte string
+                if td == "bytes" and isinstance(l, ast.Constant) and isinstance(l.value, bytes) and len(l.value) == 1:
+                    s = f"(bytes_contains1 {l.value[0]} {d})"
                     return (s if isinstance(op, ast.In) else f"(negb {s})"), "bool"
                 raise Unsupported(e, "membership")
             a, ta = self.expr(l, env)
@@ -186,6 +216,10 @@ class FnTranslator:
                 return "now", "Z"
             if src == "list" and len(e.args) == 1:
                 return self.expr(e.args[0], env)
+            if src == "len" and len(e.args) == 1:
+                a, ta = self.expr(e.args[0], env)
+                self.want(e, ta, "bytes")
+                return f"(Z.of_nat (List.length {a}))", "Z"
             if src == "range" and len(e.args) == 2:
                 a, ta = self.expr(e.args[0], env)
                 b, tb = self.expr(e.args[1], env)
@@ -204,6 +238,13 @@ class FnTranslator:
                     b, tb = self.expr(e.args[0], env)
                     if ta == "bytes" and tb == "bytes":
                         return f"(bytes_startswith {a} {b})", "bool"
+                if meth == "replace" and len(e.args) == 2 and isinstance(e.args[0], ast.Constant) \
+                        and isinstance(e.args[0].value, bytes) and len(e.args[0].value) == 1:
+                    # value.replace(b"x", new): a one-byte pattern (occurrences cannot overlap)
+                    a, ta = self.expr(e.func.value, env)
+                    b, tb = self.expr(e.args[1], env)
+                    if ta == "bytes" and tb == "bytes":
+                        return f"(bytes_replace1 {e.args[0].value[0]} {b} {a})", "bytes"
                 if meth == "split" and len(e.args) == 1:
                     a, ta = self.expr(e.func.value, env)
                     b, tb = self.expr(e.args[0], env)
@@ -599,6 +640,13 @@ def gen_dotstuff(repo: Path) -> str:
     return HEADER.format(src="asimap/pop3_client.py", extra=" Base.Bytes") + tr.translate({"result": "lbytes"})
 
 
+def gen_quote(repo: Path) -> str:
+    src = repo / "asimap/utils.py"
+    tree = ast.parse(src.read_text())
+    tr = FnTranslator(find_fn(tree, "imap_string"), {"params": [("value", "bytes")], "ret": "bytes"}, {})
+    return HEADER.format(src="asimap/utils.py", extra=" Base.Bytes") + tr.translate({})
+
+
 def gen_flags(repo: Path) -> str:
     src = repo / "asimap/constants.py"
     tree = ast.parse(src.read_text())
@@ -631,6 +679,7 @@ TARGETS = {
     "Throttle": gen_throttle,
     "DotStuff": gen_dotstuff,
     "Flags": gen_flags,
+    "Quote": gen_quote,
 }
 
 
